@@ -431,5 +431,5 @@ PROP = Property(
     ),
     parts=[Pairs(), Registrations(), SharedBuffer()],
     assumptions=["the global cache behind LDAPResultCode(<unknown>) is shared by design; transcripts compare result codes by value"],
-    technique="differential property testing (interleaved vs isolated transcripts) + enumerated registration subsets",
+    technique="differential property testing (interleaved vs isolated transcripts) + enumerated registration subsets, built-in id collisions and shared-buffer deliveries",
 )
